@@ -184,7 +184,7 @@ def judge_cases(ctx, cases, *, real=None):
         batch.append(rec)
     res = run_tlc(ctx.workdir / "mc", "C01_Planners", CFG, files={"batch.json": batch},
                   env={"BATCH_FILE": "batch.json", "MODE": "mc", "FAMGAMMA": "half", "FAMMOD": 1, "FAMREM": 0},
-                  coverage=(ctx.tier == "thorough"))
+                  coverage=False)
     ctx.add_tlc(res, "mc: oracle + VIvec/VIdict/PI machines over the batch")
     compare(ctx, cases, res, real=real)
 
@@ -194,7 +194,7 @@ def family_cases(ctx, gamma, mod, rem):
     instances; they are replayed into the real planners."""
     res = run_tlc(ctx.workdir / f"fam-{gamma}", "C01_Planners", CFG, files={"batch.json": []},
                   env={"BATCH_FILE": "batch.json", "MODE": "family", "FAMGAMMA": gamma, "FAMMOD": mod, "FAMREM": rem},
-                  coverage=(ctx.tier == "thorough"), timeout=7200)
+                  coverage=False, timeout=7200)
     ctx.add_tlc(res, f"family({gamma}): exhaustive 2-state/2-action family, slice {rem} mod {mod}")
     # re-number: cases in the order of the oracle records
     recs = [r for r in res.records if r["kind"] == "oracle"]
